@@ -255,10 +255,10 @@ DOMNode* DOMAttrImpl::rename(const XMLCh* namespaceURI, const XMLCh* name)
     DOMElement* el = getOwnerElement();
     DOMDocumentImpl* doc = (DOMDocumentImpl*)fParent.fOwnerDocument;
 
-    if (el)
-        el->removeAttributeNode(this);
-
     if (!namespaceURI || !*namespaceURI) {
+        if (el)
+            el->removeAttributeNode(this);
+
         fName = doc->getPooledString(name);
 
         if (el)
@@ -273,6 +273,10 @@ DOMNode* DOMAttrImpl::rename(const XMLCh* namespaceURI, const XMLCh* name)
 
         // create a new AttrNS
         DOMAttr* newAttr = doc->createAttributeNS(namespaceURI, name);
+
+        // only now that the name was accepted, detach from the element
+        if (el)
+            el->removeAttributeNode(this);
 
         // transfer the userData
         doc->transferUserData(castToNodeImpl(this), castToNodeImpl(newAttr));
